@@ -21,3 +21,20 @@ pub open spec fn ring_wf(r: TokenRing) -> bool {
 pub open spec fn verified(s: Set<int>, sa: int, da: int) -> bool {
     s.contains(sa) && s.contains(da) && forall|i: int| s.contains(i) ==> !strictly_between(sa, da, i)
 }
+
+// Justifies the Kani contract stub of witness_token_pass for the station's own pass TS -> NS: when NS is the
+// cyclic successor of TS in a LAS that contains TS, the update leaves the LAS (hence NS and PS) unchanged.
+pub proof fn lemma_own_pass_keeps_las(s: Set<int>, t: int, n: int)
+    requires
+        s.contains(t), is_succ(s, t, n), 0 <= t <= 127,
+        forall|i: int| s.contains(i) ==> 0 <= i < 128,
+    ensures
+        upd(s, t, n) =~= s,
+{
+    assert forall|i: int| upd(s, t, n).contains(i) <==> s.contains(i) by {
+        if s.contains(i) && in_cyc(t, n, i) && i != t {
+            // i would be a member strictly between t and its cyclic successor n: impossible
+            if n > t { assert(t < i < n); }
+        }
+    }
+}
